@@ -30,3 +30,5 @@ def run(repo, chk, tier):
     summary_obligations(repo, chk, False, 'C01', {'badratio', 'badlog', 'badindex', 'badrange', 'badcount', 'badstore', 'badinit'})
     loop_cursors(repo, chk, 'C01.7')
     sampling_guard(repo, chk, 'C01.8')
+    from .kernel_rules import compile_options
+    compile_options(repo, chk, 'C01.9')
